@@ -1,9 +1,7 @@
 (** Prop_C10.v -- C10: any crash leaves a database the server can restart
-    from and clean up.  (The last sentence of the property -- resume
-    equivalence of re-sent commands -- is quoted from ResumeFacts.v in
-    Prop_C10r.v when available.) *)
+    from and clean up. *)
 From MW Require Import Base Store Monad Usage Server Websocket Service Findings Inv Obs
-     StepFacts SweepFacts TimeInv Corollaries QuiesceFacts Inst_Params.
+     StepFacts SweepFacts TimeInv Corollaries QuiesceFacts NpFactsA MbFactsA MbFactsB DupFacts ResumeFacts Inst_Params.
 Local Open Scope list_scope.
 
 (** histories may contain any number of [ECrash k e] events: the process dies
@@ -59,6 +57,40 @@ Theorem C10_crash_then_quiescence_empties :
   chan_empty (chan_w s') /\ chan_c s' = chan_w s' /\ conns s' = [].
 Proof. exact reachable_store_returns_to_empty. Qed.
 Print Assumptions C10_crash_then_quiescence_empties.
+
+(** * clients that reconnect and re-send their unacknowledged command (quoted by
+    type from ResumeFacts.v).  [ECrash k (ECmd c msg o)]: the server dies right
+    after the k-th commit of the command, for EVERY k (0 = before any, beyond the
+    last = after completing it) and restarts on the files; the client reconnects
+    as the same side and re-sends ([dup_events]).  [nothing_expirable]: the
+    start-up sweep of the restarted server has nothing old enough to delete
+    (otherwise the restart -- not the crash -- changes the state: that is expiry). *)
+
+(** claim: same `claimed` id, same channel database as the uncrashed run *)
+Theorem C10_claim_resume : ltac:(let t := type of claim_resume in exact t).
+Proof. exact claim_resume. Qed.
+Check C10_claim_resume.
+Print Assumptions C10_claim_resume.
+
+(** release: `released`, same channel database *)
+Theorem C10_release_resume : ltac:(let t := type of release_resume in exact t).
+Proof. exact release_resume. Qed.
+Check C10_release_resume.
+Print Assumptions C10_release_resume.
+
+(** open: the same stored messages are replayed, same channel database *)
+Theorem C10_open_resume : ltac:(let t := type of open_resume in exact t).
+Proof. exact open_resume. Qed.
+Check C10_open_resume.
+Print Assumptions C10_open_resume.
+
+(** close: `closed`; same channel database when the close was the last one; when
+    the mailbox survives, the only difference is its `updated` stamp (KF4: the re-sent
+    close goes through open_mailbox) *)
+Theorem C10_close_resume : ltac:(let t := type of close_resume in exact t).
+Proof. exact close_resume. Qed.
+Check C10_close_resume.
+Print Assumptions C10_close_resume.
 
 (** a crash between claim's two commits really leaves a mailbox without side
     row (the state defect D12 was about), and it is well-formed by [DbInv] *)
